@@ -213,8 +213,10 @@ class FieldData:
       if fieldname in self._data:
         self._data.pop(fieldname)
     else:
+      # (a tag deleted and assigned again through its accessor has no
+      # datatype any more: it gets the default one for the value)
+      self._field_or_default_datatype(fieldname, value)
       if self.vlevel >= 3:
-        self._field_or_default_datatype(fieldname, value)
         gfapy.Field._validate_gfa_field(value, self._field_datatype(fieldname),
             fieldname)
       self._data[fieldname] = value
